@@ -815,6 +815,34 @@ func (s *safety) classOf(v ssa.Value) ssa.Value {
 				return rep
 			}
 		}
+		// ... or written by one store outside any loop of its function, when this load can only
+		// run after that write: a load in the same function that the store
+		// dominates, or a load in a literal created (at every level up to the
+		// variable's function) where the store dominates the creation
+		if st, calls := s.p.CellDefs(cell); len(st) == 1 && len(calls) == 0 && st[0].Parent() == cell.Parent() {
+			var at ssa.Instruction = u
+			okChain := true
+			for f := u.Parent(); f != cell.Parent(); {
+				mc := s.p.ClosureOf(f)
+				if mc == nil {
+					okChain = false
+					break
+				}
+				at = mc
+				f = mc.Parent()
+			}
+			// (and the write is not in a loop: it happens once)
+			for _, body := range core.Loops(cell.Parent()) {
+				if body[st[0].Block()] {
+					okChain = false
+				}
+			}
+			if okChain && at.Parent() == cell.Parent() && core.Before(st[0], at) {
+				rep = s.classOf(st[0].Val)
+				s.loadCl[v] = rep
+				return rep
+			}
+		}
 	}
 	for _, b := range fn.Blocks {
 		for _, in := range b.Instrs {
